@@ -31,7 +31,8 @@ CLAIMED["C11"] = dict(
          "checked natively. Genetic-map distance/interpolation clauses are covered by the bounded native ring.",
     note=TRUST_COMMON + "exp/log laws are trusted instances; scipy interp1d behaviour is outside the contracts (ring only).",
 )
-SOURCE_COMMITS += ["ee6306b2", "0c304bf0", "bec7efd2", "ea4b9347", "27a5b242", "edfc47a7", "026496e9", "40b2a60c", "17c431ae", "8014ccf5", "e63286ed"]
+import subprocess as _sp
+SOURCE_COMMITS += [l.split()[0][:8] for l in _sp.check_output(["git","-C","/repo","log","--format=%h %s"]).decode().splitlines() if l.split(" ",1)[1].startswith("fix:")][::-1]
 CLAIMED["C03"] = dict(
     level="proof",
     technique="deductive, proxy execution: the real matrix-class methods run on opaque symbolic arrays (uninterpreted numpy operators, symbolic shapes); per-operation uniformity/frame/WF obligations discharged by congruence (z3); induction over histories by the class invariant",
@@ -46,6 +47,78 @@ CLAIMED["C03"] = dict(
          "position-map lemma per operator (take/delete/insert/concatenate) is assumed from numpy's documentation and differential-tested "
          "by the ring. DenseBreedingValueMatrix structural operations are handled under C15.",
 )
-for _k in ["C02", "C03", "C04", "C05", "C06", "C07", "C08", "C09", "C10", "C11", "C12", "C13", "C14", "C15", "C16",
-           "C17", "C18", "C19", "C20"]:
-    NA[_k] = "check not built yet in this session (work in progress; see DESIGN.md §8 for the plan)"
+
+RING = ("A bounded native ring (real code, oracle written from the statement, seeded + exhaustive small scopes; bounds in evidence) is the "
+        "stand-in for everything not proved and the replay route for counterexamples. ")
+
+def _claim(pid, level, technique, text, note):
+    CLAIMED[pid] = dict(level=level, technique=technique, text=text, note=TRUST_COMMON + note)
+
+_claim("C02", "exploration",
+       "bounded native enumeration of the exact gamete law with scripted generators (stand-in); the deterministic reduction is carried by the C01 kernel contract and the C11 map-function lemmas",
+       "The distributional statement is reduced to deterministic facts: switch between j-1 and j iff the draw is below xoprob[j] (kernel contract, proved under C01), "
+       "Haldane composition and map-function range (lemmas proved under C11). What is checked here is bounded: the exact outcome law of the real kernels and of all "
+       "seven mate() protocols is enumerated with scripted generators for p<=4 markers and compared with the law written from the statement; interp_xoprob is "
+       "compared with mapfn(distance to previous marker) on seeded maps. Convergence itself (law of large numbers, i.i.d. draws) is an assumption.",
+       "i.i.d. U[0,1) draws and the law of large numbers are assumed, not verified.")
+_claim("C04", "exploration", "bounded native ring (deductive units for the linear forms are planned; none claimed yet)",
+       "Bounded: predictions, variances, allele summaries and rrBLUP clauses are compared with loop oracles on seeded and exhaustive small cases incl. >127 taxa "
+       "and bad copy numbers. Two genuine defects are recorded as known findings, one was repaired.", "rrBLUP convergence is outside the reach of contracts (iterative floating point).")
+_claim("C05", "exploration", "bounded native ring over all ~60 problem classes (no deductive unit claimed yet)",
+       "Bounded: latent functions vs independent definitions, encoding agreement, order/scale invariance, evalfn == weights x transformations, factory data, "
+       "for n<=8 candidates. Three genuine defects repaired, five recorded.", "")
+_claim("C06", "exploration", "bounded native ring (tiny optimiser budgets, exhaustive small subset problems)",
+       "Bounded: every optimiser class is run on small problems with trap objectives; decision-space membership, exact re-evaluation, non-domination, problem "
+       "immutability, brute-force optimum of the sorting optimiser and exchange-local optimality of the hill-climbers. pymoo internals are an assumed contract.",
+       "pymoo 0.6.2 behaviour is assumed; OS-entropy seeding is pinned in the ring (see C08 findings).")
+_claim("C07", "exploration", "bounded native ring",
+       "Bounded: sample_xconfig of every configuration class (shape, membership, multiplicities, exchange-local optimality by brute force), cross-map index "
+       "generators exhaustively, truncation exactness and equivariance with the exact optimiser, select() data flow for 6 protocol families x 4 encodings.", "")
+_claim("C08", "exploration", "bounded native ring of seeded programs and explicit-generator isolation, with a guarded twin for the known pymoo-entropy defect",
+       "Bounded: random programs of stochastic API calls are re-run after re-seeding under different interpreter histories and compared bit for bit; with an explicit "
+       "generator the result must depend only on its state and the global streams must be untouched. Five genuine defect classes are recorded as known findings; "
+       "the guarded twin (pymoo's OS entropy pinned) must pass.", "Determinism of numpy/python generators given their state is assumed.")
+_claim("C09", "other",
+       "bounded symbolic execution of the real methods (mode B: real numpy on symbolic scalars, all allele patterns for small shapes, z3) + exhaustive float enumeration over copy numbers (mode F) + native ring",
+       "Not a proof: every statistic of both genotype classes is proved equal to its textbook definition for ALL allele patterns but only for shapes up to 3 taxa x 3 "
+       "markers (bounded in shape, unbounded in values), phased == unphased projection likewise; float exactness of the frequencies at 0 and 1 is enumerated "
+       "exhaustively for every copy number up to 6000 (quick) on the real methods. Two genuine defects were repaired.", "")
+_claim("C10", "other",
+       "deductive lemmas (z3) for the per-locus bracket, tightening and closure steps + bounded symbolic execution (mode B) of the real usl/lsl formulas + native ring of closed breeding histories",
+       "The induction step of the history property is proved: per-locus bracket ploidy*u*I_low <= u*d <= ploidy*u*I_up, monotone tightening when availability shrinks, "
+       "and closure (the meiosis contract of C01 and the TAKE position map of C03 cannot regenerate a lost allele). That usl/lsl compute exactly that indicator sum is "
+       "bounded-symbolic (all values, shapes <= 3x2x2), and float exactness of p is the C09 enumeration; so the whole is not claimed as proof.", "")
+_claim("C12", "exploration", "bounded native ring against exhaustive gamete enumeration",
+       "Bounded: all 2^p haplotypes (p<=6) are enumerated with exact Haldane probabilities through the literal cross scheme and compared with the variance / "
+       "covariance matrices, for several selfing depths and chunk sizes; symmetry, zero for identical parents, chunk invariance, permutation equivariance, usefulness "
+       "criteria. Two defect families are recorded as known findings.", "The general theorem (formula == gamete variance for all p) is not formalised.")
+_claim("C13", "other",
+       "bounded symbolic execution (mode B) of the real from_gmat formulas against independent definitions + deductive identities (z3) + native ring",
+       "Molecular coancestry == twice the mean IBS probability, VanRaden / generalized-weighted formulas, symmetry and label carry-over are proved for all allele "
+       "patterns, reference frequencies and weights for shapes <= 3x3 (bounded in shape); the per-locus IBS identity and positive semidefiniteness of Gram matrices "
+       "are proved as lemmas. Larger shapes, summaries and int8 accumulation limits are covered by the bounded native ring.", "")
+_claim("C14", "exploration", "bounded native ring with recording/scripted generators",
+       "Bounded: record structure and labels, zero-noise truth, additive noise structure by classifying recorded draws, heritability ratio, mean-phenotype "
+       "alignment/invariance/missing taxa. Statistical convergence is an assumption.", "i.i.d. normal draws and the law of large numbers are assumed.")
+_claim("C15", "proof",
+       "deductive, proxy execution (mode A1): the real select/delete/insert/adjoin_taxa run on opaque symbolic arrays and must hand from_numpy exactly OP(unscale()) with labels moved by the same OP; round trip and summaries bounded-symbolic (mode B); native ring",
+       "Proved for all shapes and contents (3 classes x 6 operation forms x 3 label configurations): the structural operation passes OP(unscaled values) and OP(labels) to "
+       "from_numpy, so every retained taxon keeps its raw values and labels (modular: the round-trip contract unscale(from_numpy(x)) == x is the bounded-symbolic B unit, "
+       "proved for all values for shapes <= 3x2 incl. the constant-column branch). Original-scale summaries are bounded-symbolic. Inherited concat/append/incorp/remove and "
+       "the constant-trait statistics are recorded known findings.", "from_numpy/unscale round trip is bounded in shape (mode B).")
+_claim("C16", "other",
+       "bounded symbolic execution of the real h5py_File_write_dict over an abstract file map (keys <= 3, arbitrary contents and pre-states) + A1 copy/deepcopy obligations of C03 + native round-trip ring",
+       "Last-write-wins, nothing stale, other paths untouched are proved for the real write routine for dictionaries of <= 3 keys (arrays, None, nested) under every "
+       "pre-state of the touched paths, contents arbitrary; copy/deepcopy field equality and non-sharing for 11 matrix classes are proved under C03. HDF5/pandas/CSV/VCF "
+       "round trips and write sequences are the bounded native ring. Two genuine defects repaired, seven recorded.", "h5py modelled as a finite path->value map; pandas/cyvcf2 internals outside the contracts.")
+_claim("C17", "exploration", "bounded native ring with scripted offsets and exact rational counts",
+       "Bounded: SUS counts floor/ceil with exact fractions at scripted float-edge offsets, tiled_choice balance, axis_shuffle slices, outcross_shuffle multiset / "
+       "monotone / brute-force local optimality, same-state repeatability. Two genuine SUS defects repaired, float-rounding and edge-argument classes recorded.", "")
+_claim("C18", "exploration", "bounded native ring incl. exhaustive small marker layouts and NaN-poisoned allocation",
+       "Bounded: apportionment, bins, run-length bounds on exhaustive small grids and seeded layouts; block values conserve additive value; OHV/OPV vs brute force and "
+       "the doubled-haploid bound. Four genuine defect classes of the partition routines are recorded as known findings.", "")
+_claim("C19", "other",
+       "bounded symbolic execution (mode B) of the real Pareto filter and dominance predicate for all real coordinates (npt<=4, nobj<=3) + native ring incl. exhaustive grids",
+       "For every real-valued point set of up to 4 points x 2 objectives (3 objectives up to 3 points; thorough 5 points) and every sign vector the real filter is proved "
+       "to mark exactly the non-dominated points (soundness and completeness, mask == index form), path-exhaustively; `dominates` is proved equal to its definition for "
+       "nobj<=3. Distance transforms, invariances and larger sets are the bounded native ring. Two genuine defects of the distance transforms were repaired.", "")
